@@ -12,7 +12,7 @@ theorem modelCode_wellFormed (all : List TypeFacts) (t : TypeFacts) (mi : Nat)
     (he : (getM t mi).exported = true) (hok : methodOkT all t mi = true) :
     WellFormed (modelCode all t mi) := by
   simp only [methodOkT, he, if_true, Bool.and_eq_true] at hok
-  obtain ⟨⟨⟨⟨⟨hre, hga⟩, hrp⟩, hss⟩, _⟩, hfc⟩ := hok
+  obtain ⟨⟨⟨⟨⟨⟨hre, hga⟩, hrp⟩, hss⟩, _⟩, hfc⟩, _⟩ := hok
   -- no guarded access happens without the lock
   have hpre : (guardedAccs all t mi).filter (fun a => a.held == .n) = [] := by
     rw [List.filter_eq_nil_iff]
